@@ -3,6 +3,7 @@
 (* One TLC run validates a batch of recorded executions that share (NK, NTH, IHMAX).       *)
 (* Trace lines (ndjson, integers only):                                                    *)
 (*   input {tid, e}            the spectrum handed to partition(), C order                 *)
+(*   pinit {a=mk,b=mth,c=nspec,d=hash}  static work area after partinit()                   *)
 (*   const                     partition() took the constant-spectrum early return          *)
 (*   imi {arr} / ind {arr}     level map after discretisation / counting-sort result        *)
 (*   level {a=ih,b=label,c=iq_start,d=iq_end,arr=imo}   end of level ih                    *)
@@ -41,8 +42,15 @@ TInput == /\ stage = "idle" /\ Ev(l) = "input"
           /\ LET ee == [n \in Px |-> TraceLog[l].e[n+1]] IN
              /\ e' = ee /\ rc' = RunConst(ee)
              /\ w' = W0
-             /\ stage' = IF IsConst(ee) THEN "const" ELSE "imi"
+             /\ stage' = "pinit"
           /\ tid' = TraceLog[l].tid /\ l' = l + 1 /\ UNCHANGED prevcls
+
+\* the static work area must have been (re)built for exactly this shape, whatever ran before in the process
+TPinit == /\ stage = "pinit"
+          /\ IF Ev(l) = "pinit" /\ TraceLog[l].a = NK /\ TraceLog[l].b = NTH /\ TraceLog[l].c = NSPEC
+                /\ TraceLog[l].d = NeighHash
+             THEN /\ stage' = (IF IsConst(e) THEN "const" ELSE "imi") /\ l' = l + 1 /\ UNCHANGED <<e, w, rc, tid, prevcls>>
+             ELSE Reject("static-work-area")
 
 TConst == /\ stage = "const"
           /\ IF Ev(l) = "const" THEN /\ stage' = "out" /\ l' = l + 1 /\ w' = [w EXCEPT !.pc = "const"]
@@ -100,7 +108,7 @@ TOut == /\ stage = "out"
 \* an event where none is expected (e.g. the code ran more sweeps or levels than the spec)
 TStray == /\ stage = "idle" /\ l <= NL /\ Ev(l) # "input" /\ Reject("stray-event")
 
-Next == TInput \/ TConst \/ TImi \/ TInd \/ TSilent \/ TLevel \/ TSweep \/ TDone \/ TOut \/ TStray
+Next == TInput \/ TPinit \/ TConst \/ TImi \/ TInd \/ TSilent \/ TLevel \/ TSweep \/ TDone \/ TOut \/ TStray
 Spec == Init /\ [][Next]_vars
 
 Verdict == /\ PrintT(ToJson([verdict |-> "WatershedTrace", accepted |-> Cardinality(TLCGet(1)),
